@@ -39,12 +39,12 @@ def own_attr(v, D):
     if o == "text":
         return f'#[{a}("txt")] '
     if o == "bare":
-        return f'#[{a}("{ph(f0, D)}")] '
+        return f'#[{a}({vlib.rust_lit(ph(f0, D), "own" + D + k)})] '
     if k == "unit":
         return f'#[{a}("V {{}}", 1)] '
     if k == "t2":
         return f'#[{a}("V {ph("_0", D)} {ph("_1", D)}")] '
-    return f'#[{a}("V {ph(f0, D)}")] '
+    return f'#[{a}({vlib.rust_lit("V " + ph(f0, D), "ownV" + D + k)})] '
 
 
 def shared_attr(s, D):
@@ -60,7 +60,7 @@ def shared_attr(s, D):
          # one bare placeholder that is not `_variant`: still only a default for variants without an attribute
          "signed": '"{_variant:+}"', "alt": '"{:#}", _variant', "prec": '"[{v:.2}]", v = _variant',
          "bare_expr": '"{}", 7 + 1', "bare_field": f'"{f0}"', "bare_alias_expr": '"{n}", n = 7 + 1'}[s]
-    return f"#[{a}({m})]\n" if m else ""
+    return f"#[{a}({vlib.respell(m, s + D)})]\n" if m else ""
 
 
 def variant_decl(i, v, D):
